@@ -507,6 +507,7 @@ type Obs struct {
 	Leak    bool
 	Panic   bool
 	CType   string // Content-Type of a 200 answer to GET/HEAD
+	Raw     string // the whole answer (status, headers, body) in a canonical form; only kept when Sandbox.KeepRaw
 }
 
 func (o Obs) Sx() string {
@@ -595,6 +596,7 @@ type Sandbox struct {
 	Handler *webdav.Handler
 	FS      webdav.LocalFileSystem
 	wrap    func(io.Reader) io.Reader
+	KeepRaw bool // keep Obs.Raw (tworoots stage)
 }
 
 func NewSandbox(dir string, rootRel []string) *Sandbox {
@@ -897,6 +899,9 @@ func (s *Sandbox) Do(r Req, before *Node) (Derived, Obs, *Node) {
 	res := rec.Result()
 	raw, _ := io.ReadAll(res.Body)
 	o.Status = res.StatusCode
+	if s.KeepRaw {
+		o.Raw = canonicalRaw(r, res, raw)
+	}
 	// leak scan: every header value and the body
 	needle := s.Dir
 	// the sandbox top bears an unmistakable name that no served path contains: a relative
@@ -940,6 +945,117 @@ func (s *Sandbox) Do(r Req, before *Node) (Derived, Obs, *Node) {
 		}
 	}
 	return d, o, after
+}
+
+// canonicalRaw is the whole answer as a peer sees it: status, every header (sorted) and
+// the body.  The entity tag and date a PUT announces for what it has just written come
+// from the clock, not from the request or the tree: they are masked.
+func canonicalRaw(r Req, res *http.Response, body []byte) string {
+	var keys []string
+	for k := range res.Header {
+		keys = append(keys, k)
+	}
+	sort.Strings(keys)
+	var b strings.Builder
+	fmt.Fprintf(&b, "%d\n", res.StatusCode)
+	for _, k := range keys {
+		for _, v := range res.Header[k] {
+			if r.Method == "PUT" && (k == "Etag" || k == "Last-Modified") {
+				v = "<clock>"
+			}
+			fmt.Fprintf(&b, "%s: %s\n", k, v)
+		}
+	}
+	b.WriteString("\n")
+	if res.StatusCode == 207 {
+		// the properties of one <prop> are written in the order of a Go map iteration
+		if c, ok := canonicalXML(body); ok {
+			b.WriteString(c)
+			return b.String()
+		}
+	}
+	b.Write(body)
+	return b.String()
+}
+
+type xnode struct {
+	name  xml.Name
+	attrs []xml.Attr
+	kids  []*xnode
+	text  string // character data when the node is text
+	isTxt bool
+}
+
+func (n *xnode) render(b *strings.Builder) {
+	if n.isTxt {
+		fmt.Fprintf(b, "%q", n.text)
+		return
+	}
+	fmt.Fprintf(b, "<{%s}%s", n.name.Space, n.name.Local)
+	for _, a := range n.attrs {
+		if a.Name.Space == "xmlns" || (a.Name.Space == "" && a.Name.Local == "xmlns") {
+			continue
+		}
+		fmt.Fprintf(b, " {%s}%s=%q", a.Name.Space, a.Name.Local, a.Value)
+	}
+	b.WriteString(">")
+	kids := n.kids
+	if n.name.Local == "prop" {
+		kids = append([]*xnode(nil), kids...)
+		sort.SliceStable(kids, func(i, j int) bool {
+			var x, y strings.Builder
+			kids[i].render(&x)
+			kids[j].render(&y)
+			return x.String() < y.String()
+		})
+	}
+	for _, k := range kids {
+		k.render(b)
+	}
+	b.WriteString("</>")
+}
+
+// canonicalXML renders a document with the children of every <prop> sorted.
+func canonicalXML(body []byte) (string, bool) {
+	dec := xml.NewDecoder(bytes.NewReader(body))
+	root := &xnode{}
+	stack := []*xnode{root}
+	for {
+		tok, err := dec.Token()
+		if err == io.EOF {
+			break
+		}
+		if err != nil {
+			return "", false
+		}
+		top := stack[len(stack)-1]
+		switch t := tok.(type) {
+		case xml.StartElement:
+			n := &xnode{name: t.Name, attrs: append([]xml.Attr(nil), t.Attr...)}
+			top.kids = append(top.kids, n)
+			stack = append(stack, n)
+		case xml.EndElement:
+			stack = stack[:len(stack)-1]
+		case xml.CharData:
+			top.kids = append(top.kids, &xnode{isTxt: true, text: string(t)})
+		}
+	}
+	var b strings.Builder
+	for _, k := range root.kids {
+		k.render(&b)
+	}
+	return b.String(), true
+}
+
+// PinTimes gives every entry below dir (dir included) the same modification time, so that
+// entity tags and dates, which the OS derives from the clock, are equal in two sandboxes.
+func PinTimes(dir string, t time.Time) {
+	filepath.Walk(dir, func(p string, fi os.FileInfo, err error) error {
+		if err == nil && fi.Mode()&os.ModeSymlink == 0 {
+			os.Chtimes(p, t, t)
+		}
+		return nil
+	})
 }
 
 // DoNoSnapshot serves r without reading the sandbox before or after (race stages, where
